@@ -103,6 +103,8 @@ type E1Options struct {
 	ValAddrs  [][]byte // optional explicit operator address bytes per validator (C12 patterns)
 	// NoChainInfo[i] lists chains on which validator i gets NO external chain info at set-up (C10).
 	NoChainInfo map[int][]string
+	// MaxValidators overrides the staking parameter (default 20).
+	MaxValidators uint32
 }
 
 // E1 is the environment.
@@ -199,7 +201,11 @@ func NewE1(o E1Options) *E1 {
 	must(bankKeeper.SetParams(ctx, banktypes.Params{DefaultSendEnabled: true}))
 	stakingKeeper := stakingkeeper.NewKeeper(appCodec, runtime.NewKVStoreService(keys[stakingtypes.StoreKey]), accountKeeper, bankKeeper, govAuth,
 		authcodec.NewBech32Codec(chainparams.ValidatorAddressPrefix), authcodec.NewBech32Codec(chainparams.ConsNodeAddressPrefix))
-	sp := stakingtypes.Params{UnbondingTime: 100, MaxValidators: 20, MaxEntries: 10, HistoricalEntries: 10000, BondDenom: BondDenom, MinCommissionRate: math.LegacyNewDecWithPrec(5, 2)}
+	maxVals := uint32(20)
+	if o.MaxValidators > 0 {
+		maxVals = o.MaxValidators
+	}
+	sp := stakingtypes.Params{UnbondingTime: 100, MaxValidators: maxVals, MaxEntries: 10, HistoricalEntries: 10000, BondDenom: BondDenom, MinCommissionRate: math.LegacyNewDecWithPrec(5, 2)}
 	must(stakingKeeper.SetParams(ctx, sp))
 	distKeeper := distrkeeper.NewKeeper(appCodec, runtime.NewKVStoreService(keys[distrtypes.StoreKey]), accountKeeper, bankKeeper, stakingKeeper, authtypes.FeeCollectorName, govAuth)
 	must(distKeeper.Params.Set(ctx, distrtypes.DefaultParams()))
